@@ -142,6 +142,11 @@ def ent_on_exit(it, ctx, real, rep):
     if real[0] == "raise":
         # a rejected architecture must not leave a partially built instance behind
         ctx.prove(rep.oid("excframe.info.instantiated"), info.fields.get("instantiated") is None, exit=real[0])
+        # ... and must keep the record of which ports are static: the next compilation removes the ports the aborted
+        # architecture added dynamically (std.add_entity_port) by comparing against it.  Allowed after an abort:
+        # the value at entry (the abort came before the snapshot) or the snapshot of the declared ports.
+        ndp = info.fields.get("non_dynamic_ports")
+        ctx.prove(rep.oid("excframe.info.non_dynamic_ports"), ndp is it.entry_ndp or (isinstance(ndp, (set, frozenset)) and ndp == set(info.fields["ports"])), exit=real[0])
 
 
 I.register_model(CTX.Block.__dict__["__init__"], lambda it, self, *a, **k: None)
@@ -156,6 +161,9 @@ c.interp_flags = {"havoc_unknown_calls": True}
 def _ent_setup(it, ctx, args, env):
     ent_setup(it, ctx, args, env)
     it.the_info = args[0].fields["_cohdl_info"]
+    it.the_info.fields["ports"] = {"a": "PORT-a", "b": "PORT-b"}
+    it.the_info.fields["non_dynamic_ports"] = {"a"}  # the snapshot an earlier compilation left
+    it.entry_ndp = it.the_info.fields["non_dynamic_ports"]
 
 
 c.setup = _ent_setup
